@@ -6,7 +6,11 @@ TInit == KInit /\ Init([modes |-> ToSet(Batch[tid].shape.modes), defmode |-> Bat
 TStep ==
     /\ vkind = "" /\ l <= Len(Tr.steps) /\ l' = l + 1 /\ UNCHANGED tid
     /\ LET ev == Tr.steps[l].in  o == Tr.steps[l].out IN
-       IF ~EvEnabled(ev)
+       IF ev.e = "raised"      \* the code under test raised where no exception is specified
+       THEN /\ UNCHANGED slvars /\ UNCHANGED seen
+            /\ Verdict("MISMATCH", [v |-> "MISMATCH", tid |-> Tr.id, l |-> l, clauses |-> {"raised"}, br |-> <<>>,
+                                    exp |-> [raised |-> FALSE], obs |-> o])
+       ELSE IF ~EvEnabled(ev)
        THEN UNCHANGED slvars /\ UNCHANGED seen /\ Verdict("STUCK", [v |-> "STUCK", tid |-> Tr.id, l |-> l, ev |-> ev])
        ELSE /\ EvNext(ev)
             /\ seen' = seen \cup {ev.e} \cup {out'[i].k : i \in 1..Len(out')}
